@@ -623,11 +623,20 @@ theorem normalize_pad_dilation_refuted :
     computeSamePads true [7] [7] [3] [1] = [1, 1] ∧ convOutLen 7 3 1 2 1 1 = 5 ∧ convOutLen 7 3 1 2 2 2 = 7 := by
   decide
 
-/-- Expand-before-binary-op, strategy 1: the guard accepts `Add(Expand(x:[3],[1,3]), y:[3])`, whose result has rank 2
-while `Add(x, y)` has rank 1 (finding C05-N3a). -/
-theorem expand_removable_rank_refuted :
-    expandRemovableConst (some [.known 3]) (some [.known 3]) [1, 3] = true ∧
-    (specBroadcast [3] [1, 3]).bind (specBroadcast · [3]) = some [1, 3] ∧ specBroadcast [3] [3] = some [3] := by
+/-- Expand-before-binary-op, strategy 1 (after commit 48b48d2): whenever the guard passes, the Expand target is not longer
+than both operands, so removing the Expand cannot change the rank of the result. -/
+theorem expand_removable_keeps_rank (xs ys : Shape) (e : List Int)
+    (h : expandRemovableConst (some xs) (some ys) e = true) : e.length ≤ max xs.length ys.length := by
+  unfold expandRemovableConst expandRankChanges at h
+  simp only [Bool.and_eq_true, Bool.not_eq_true', decide_eq_false_iff_not, not_lt] at h
+  exact h.1
+
+/-- Documentation of finding C05-N3a (fixed): the pre-fix guard accepted `Add(Expand(x:[3],[1,3]), y:[3])`, whose result
+has rank 2 while `Add(x, y)` has rank 1; the guard now refuses it. -/
+theorem expand_removable_prefix_rank_refuted :
+    expandRemovableConstPrefix (some [.known 3]) (some [.known 3]) [1, 3] = true ∧
+    (specBroadcast [3] [1, 3]).bind (specBroadcast · [3]) = some [1, 3] ∧ specBroadcast [3] [3] = some [3] ∧
+    expandRemovableConst (some [.known 3]) (some [.known 3]) [1, 3] = false := by
   decide
 
 end Linalg
